@@ -267,6 +267,8 @@ class Models:
         R(r"as core::iter::traits::iterator::Iterator>::(find|position|any|all)$|^core::iter::traits::iterator::Iterator::(find|position|any|all)$", m_search, "Iterator::find/position/any/all over a small constant table: the predicate on each element in order")
         R(r"^core::slice::<impl \[T\]>::contains$", m_contains, "slice::contains over a small constant table: x == element, in order")
         R(r"^core::mem::replace$", m_mem_replace, "mem::replace stores the new value and returns the old one")
+        R(r"^core::slice::<impl \[T\]>::split_at_mut$", m_split_at_mut, "split_at_mut(mid) of a view of a vector built here: the views [0, mid) and [mid, len) (panics if mid > len)")
+        R(r"^core::slice::<impl \[T\]>::copy_from_slice$", m_copy_from_slice, "copy_from_slice(src) into a view of a vector built here, both of the same constant length: those elements replace the range")
         R(r"^alloc::vec::from_elem$", lambda ci: ("seq", (("fill_to", ci.args[1], ci.args[0]),)), "vec![x; n]: n copies of x")
         R(r"^<alloc::vec::Vec<T, A> as core::iter::traits::collect::Extend<&'a T>>::extend$|^<alloc::vec::Vec<T, A> as core::iter::traits::collect::Extend<T>>::extend$", m_vec_extend_iter, "Vec::extend with the items of a slice iterator: extend_from_slice")
         R(r"as core::iter::traits::iterator::Iterator>::(try_for_each|try_fold)$|^core::iter::traits::iterator::Iterator::(try_for_each|try_fold)$", m_try_iter, "Iterator::try_fold / try_for_each: the closure on each item in order, stopping at the first Err / None / Break, which is returned")
@@ -488,6 +490,10 @@ def m_index(ci):
             raise Unsupported("index by %s" % nm)
         lo = lo or mk_int(0, "usize")
         ci.st.emit(("index_range", base, lo, hi, ci.w))
+        if "index_mut" in ci.name and a[0] == "ref" and a[2] and a[1][0] in ("loc", "heap") and ci.ev.view_of(ci.st, a[1]) is not None:
+            # `&mut v[lo..hi]` of a vector built in this function: kept as a place, so that fill / copy_from_slice through it
+            # rewrite the vector (mireval.view_of / write_overlay)
+            return ("ref", a[1][:-1] + (a[1][-1] + (("rsub", lo, hi),),), True)
         if base[0] in ("bytes", "array") and lo[0] == "int" and (hi is None or hi[0] == "int"):
             h = hi[1] if hi else len(base[1])
             if lo[1] <= h <= len(base[1]):
@@ -1648,4 +1654,44 @@ def m_fill(ci):
     a = ci.args[0]
     sl = ci.deref(a)
     ci.st.emit(("fill", sl, ci.args[1], ci.w))
+    if a[0] == "ref" and a[1][0] in ("loc", "heap"):
+        ci.ev.write_overlay(ci.st, a[1], ("fill", ci.args[1]), ci.w)
+    return UNIT
+
+
+def m_split_at_mut(ci):
+    a, mid = ci.args
+    if not (a[0] == "ref" and a[1][0] in ("loc", "heap")):
+        return None
+    vw = ci.ev.view_of(ci.st, a[1])
+    if vw is None:
+        return None
+    # std: panics if mid > len
+    ci.st.emit(("index_range", ci.deref(a), mk_int(0, "usize"), mid, ci.w))
+    base = a[1][:-1]
+    pj = a[1][-1]
+    left = ("ref", base + (pj + (("rsub", mk_int(0, "usize"), mid),),), True)
+    right = ("ref", base + (pj + (("rsub", mid, None),),), True)
+    return ("tuple", (left, right))
+
+
+def m_copy_from_slice(ci):
+    a, src = ci.args
+    if not (a[0] == "ref" and a[1][0] in ("loc", "heap")):
+        return None
+    vw = ci.ev.view_of(ci.st, a[1])
+    if vw is None:
+        return None
+    _, lo, hi = vw
+    sv = ci.deref(src) if src[0] == "ref" else src
+    if sv[0] == "bytes":
+        elems = tuple(mk_int(b, "u8") for b in sv[1])
+    elif sv[0] == "array":
+        elems = tuple(sv[1])
+    else:
+        return None
+    # std: panics unless both lengths are equal; decided here only for constant lengths
+    if not (lo[0] == "int" and hi[0] == "int" and hi[1] - lo[1] == len(elems)):
+        return None
+    ci.ev.write_overlay(ci.st, a[1], ("elems", elems), ci.w)
     return UNIT
